@@ -76,18 +76,22 @@ func (c Cfg) String() string { return string(planJSON(c)) }
 
 var (
 	vocabDomains = []string{"example.com", "foo.example.com", "barexample.com", "ample.com", "example.com.",
-		"a.b.example.com", "xn--xample-9ua.com", "example.org", "example.co.uk", "internal", "localhost"}
+		"a.b.example.com", "xn--xample-9ua.com", "example.org", "example.co.uk", "internal", "localhost",
+		"a.b.c.d.e.example.com", "m", "x--y.example.com", "1example.com", longHost253}
 	vocabIPs      = []string{"127.0.0.1", "10.0.0.1", "[::1]", "[2001:db8::1]", "127.0.0.2"}
 	vocabWildBase = []string{"example.com", "foo.example.com", "example.com.", "example.org", "ample.com", "xn--xample-9ua.com"}
 	vocabPSL      = []string{"com", "github.io", "co.uk", "localhost"} // need TolPSL
 	vocabSchemes  = []string{"https", "https", "http", "connector", "a+b-c.d"}
 	vocabPorts    = []string{"", "", "", ":1", ":8080", ":65535", ":*", ":8443"}
 	vocabMethods  = []string{"GET", "POST", "HEAD", "PUT", "put", "DELETE", "delete", "PATCH", "patch", "OPTIONS", "PURGE", "QUERY", "Foo"}
-	vocabReqHdrs  = []string{"Authorization", "authorization", "AUTHORIZATION", "Content-Type", "X-Foo", "x-bar", "X-Baz-Qux", "Accept", "Cache-Control", "x-a", "X-Requested-With"}
+	vocabReqHdrs  = []string{"Authorization", "authorization", "AUTHORIZATION", "Content-Type", "X-Foo", "x-bar", "X-Baz-Qux", "Accept", "Cache-Control", "x-a", "X-Requested-With", "X-Foo-Bar", "x-fo"}
 	vocabResHdrs  = []string{"X-Response-Time", "x-foo", "Content-Length", "ETag", "Link", "X-Bar", "Cache-Control"}
 	vocabMaxAge   = []int{0, 0, -1, 1, 5, 600, 86400}
 	vocabStatus   = []int{0, 0, 200, 204, 299, 201}
 )
+
+// a 253-byte domain (the documented maximum): 3 labels of 63 bytes + one of 61
+var longHost253 = strings.Repeat("a", 63) + "." + strings.Repeat("b", 63) + "." + strings.Repeat("c", 63) + "." + strings.Repeat("d", 57) + ".com"
 
 func isLoopbackish(host string) bool {
 	return host == "localhost" || host == "[::1]" || strings.HasPrefix(host, "127.")
